@@ -630,6 +630,9 @@ def _xproc_child(payload):
   return {'traces': traces, 'violation_keys': ctx.violation_keys, 'violations': ctx.violations}
 
 
+
 if __name__ == '__main__':
   from vmon import xproc as _xproc
   _xproc.child_main(_xproc_child)
+
+TECHNIQUE += '; configuration shards (rbg / unsafe_rbg PRNG, non-partitionable threefry); fresh-interpreter replay under another PYTHONHASHSEED; populations up to 2.6e5 clients; transient callback failures'
